@@ -580,7 +580,7 @@ def replay_symmetry(chk, rs, c, variants):
         kwt["profiles"] = rs.flip_profiles(kw["profiles"], swap=True)
         kwt["domain"] = (kw["domain"][1], kw["domain"][0])
         kwt["modes"] = (kw["modes"][1], kw["modes"][0])
-        _, pt, ft = rs.solve3(q.T.copy(), kwt)
+        _, pt, ft = rs.solve3(q.T, kwt)            # the transposed VIEW of the same map (same memory, other strides), right after the solves of q
         if not (_cmp(chk, rs, c, "transpose", "flux", ft, np.transpose(f0, (0, 2, 1)), prec, "axes exchanged (source transposed, u<->v, Kx<->Ky, domain and modes swapped)", **extra)
                 and _cmp(chk, rs, c, "transpose", "conc", pt, np.transpose(p0, (0, 2, 1)), prec, "axes exchanged", **extra)):
             return
